@@ -315,7 +315,7 @@ impl Prop for C03 {
                     let v = &ch.vals[scale(*idx, ch.vals.len())];
                     let len = (v.e - v.s) as u64;
                     let s = v.s + (((*frac as u64) * len) >> 16) as u32;
-                    let e = (s + *width as u32).min(ch.size);
+                    let e = s.saturating_add(*width as u32).min(ch.size);
                     R::Interval(ci, s.min(e), e)
                 }
                 QOp::Reopen => R::Reopen,
